@@ -34,6 +34,7 @@ LEVEL = {
     "technique": "static analysis: finite-domain abstract evaluation of the adapters over the input-shape lattice "
                  "(awaitable/plain x async/sync iterable x awaitable/plain item), event traces compared with the specification",
 }
+LEVEL["decided"] += ' sync(): the wrapper calls the very callable it was given, also when that is a functools.partial (closure environment evaluated).'
 
 
 def run(ctx) -> None:
